@@ -289,29 +289,61 @@ func (c *Ctx) EntryAlignment(prop string, s *Slashing, kind string) {
 		var stateVal ssa.Value
 		// (a) a call in E passing (meta, req, state) to the approval function
 		var checkCall ssa.CallInstruction
+		var checkCalls []ssa.CallInstruction
 		for _, ci := range Calls(E, func(ci ssa.CallInstruction) bool {
 			f := ci.Common().StaticCallee()
 			return f != nil && prog.InModule(f) && !fhs[f] && shs[f] == nil
 		}) {
 			for _, a := range ci.Common().Args {
 				if isStatePtr(a.Type()) {
+					if stateVal != nil && stateVal != a {
+						c.R.Unknown(rule, Fn(E)+":check-args", c.Pos(ci), "the entry passes different state objects to its check helpers")
+					}
 					checkCall = ci
+					checkCalls = append(checkCalls, ci)
 					stateVal = a
 				}
 			}
 		}
 		if checkCall != nil {
-			okMeta, okReq := false, false
-			for _, a := range checkCall.Common().Args {
-				if a == ssa.Value(metaP) {
-					okMeta = true
+			// every check helper works on this entry's own metadata and request: an argument of metadata/request type is the
+			// entry's parameter itself, and any other argument that is a field load is rooted at one of them (or at the state)
+			for _, cc := range checkCalls {
+				for _, a := range cc.Common().Args {
+					bad := ""
+					switch {
+					case types.Identical(a.Type(), metaP.Type()):
+						if a != ssa.Value(metaP) {
+							bad = "metadata"
+						}
+					case types.Identical(a.Type(), reqP.Type()):
+						if a != ssa.Value(reqP) {
+							bad = "request"
+						}
+					default:
+						root := a
+						for {
+							if cv, ok := root.(*ssa.Convert); ok {
+								root = cv.X
+								continue
+							}
+							owner, _, base := an.FieldOf(root)
+							if owner == nil {
+								break
+							}
+							root = base
+						}
+						if root != a {
+							// a field load: must be rooted at the entry's request, metadata or the state
+							if root != ssa.Value(metaP) && root != ssa.Value(reqP) && root != stateVal {
+								bad = "field argument " + an.Term(a)
+							}
+						}
+					}
+					if bad != "" {
+						c.R.Fail(rule, Fn(E)+":check-args", c.Pos(cc), "the check is not applied to the entry's own metadata and request ("+bad+")", "check helpers receive this entry's metadata/request (or fields of them) and the fetched state", nil)
+					}
 				}
-				if a == ssa.Value(reqP) {
-					okReq = true
-				}
-			}
-			if !okMeta || !okReq {
-				c.R.Fail(rule, Fn(E)+":check-args", c.Pos(checkCall), "the check is not applied to the entry's own metadata and request", "check(metadata, req, state)", nil)
 			}
 		} else {
 			// (b) guards are local: all state field accesses in E must share one base value
